@@ -371,35 +371,29 @@ theorem merge_strDict {a b : Res} (ha : WF a) (hb : WF b) (sa : StrDict a.attrs)
   | none => rw [merge_incompatible hs]; exact sa
   | some u => rw [merge_compatible ha hb hs]; exact update_strDict sa sb
 
-theorem detectItems_strDict (items : List (List Char)) : ∀ (acc : OD), StrDict acc → StrDict (detectItems items acc) := by
+theorem svc_strDict (sn : Option String) {d : OD} (h : StrDict d) :
+    StrDict (if envTruthy sn then OD.set d (Key.str serviceNameKey) (strVal (envText sn)) else d) := by
+  split
+  · exact set_strDict h
+  · exact h
+
+theorem detectLoop_strDict (ra sn : Option String) (items : List String) :
+    ∀ (acc : OD), StrDict acc → StrDict (detectLoop ra sn items acc) := by
   induction items with
-  | nil => intro acc h; exact h
+  | nil => intro acc h; simp only [detectLoop]; exact svc_strDict sn h
   | cons it items ih =>
     intro acc h
-    simp only [detectItems]
+    simp only [detectLoop]
     split
     · exact ih acc h
     · exact ih _ (set_strDict h)
 
 theorem detect_strDict (ra sn : Option String) : StrDict (detect ra sn) := by
   have h0 : StrDict [] := by intro e he; simp at he
-  have hm : StrDict (match ra with
-      | none => []
-      | some s => if s == "" then [] else detectItems (splitOn ',' s.toList) []) := by
-    cases ra with
-    | none => exact h0
-    | some s =>
-      simp only
-      split
-      · exact h0
-      · exact detectItems_strDict _ _ h0
-  unfold detect
-  cases sn with
-  | none => exact hm
-  | some s =>
-    simp only
-    split
-    · exact hm
-    · exact set_strDict hm
+  unfold detect detectEnv
+  simp only
+  split
+  · exact detectLoop_strDict _ _ _ _ h0
+  · exact svc_strDict sn h0
 
 end ResProofs
